@@ -27,7 +27,16 @@ CLAIM = dict(
           "exercised by histories on one RegionCoreTree object (every read-out judged by the oracle against the cores "
           "added so far and compared with the model) and by sequences of compress_flood_fill_regions calls in one process "
           "on dictionaries / core sets the caller keeps and changes in place (every result judged against the targets as "
-          "they are at that call; the caller's data must survive the call)."),
+          "they are at that call; the caller's data must survive the call), by read-outs kept as generator objects and "
+          "consumed lazily and alternately (several generators of one tree and of different trees, abandoned or drained, "
+          "other trees changing meanwhile; a generator is modelled as the list the traversal gives for its tree as it is "
+          "when the generator is created - which is what the unchanged code yields as long as that tree does not change "
+          "while the generator is open: the generator reads nothing but its tree's base/level, locally_selected and "
+          "subregions and a per-node local table; generators whose tree changed while open are not judged), and by the "
+          "region lists the real MachineController.flood_fill_aplx / load_application send (FFCS packets of sequences of "
+          "calls on one controller against a recording machine, decoded by the documented packet layout arg1 = command "
+          "<< 24 | core mask, arg2 = region; every fill judged against the targets of that flood_fill_aplx invocation, "
+          "including the retries load_application makes)."),
     design="3/C12",
     note=("Proved: everything above, about the Lean model and the Lean specification. Validated only (differential "
           "testing, every run): that the Lean model computes what regions.py computes. Trusted: that SC&MP reads a "
@@ -57,10 +66,17 @@ RULE = ("target sets built from shapes: sparse points (whole grid or a small win
         "after the first add, at random points, twice in a row, around the last adds and at the end; sequences of "
         "2-12 compress_flood_fill_regions calls in one process on one or two dictionaries the caller keeps, with "
         "discard/add/clear on the chips' own set objects, deleted / new / re-bound chips and unchanged repeats between "
-        "the calls; replays carry the whole history. A case is non-trivial when the output contains a "
+        "the calls; two or three trees (roots, sub-trees; neighbouring chips with different core sets so that a node "
+        "holds several groups) whose read-outs stay generator objects: opened, advanced alternately by 1-5 pairs, "
+        "drained, abandoned, other trees growing meanwhile; one MachineController on a recording machine (chips in a "
+        "window, scattered over level boundaries, or a full 4 x 4 block): 2-6 steps flood_fill_aplx(path, targets) / "
+        "flood_fill_aplx({path: targets, ...}) / load_application with chips that miss some fills (retries), the next "
+        "request for a binary being the same chips with other cores, a part, a superset, the same again, or fresh, "
+        "the same or another binary; replays carry the whole history. A case is non-trivial when the output contains a "
         "region word of level < 3 (at least one collapse of sixteen children) or >= 2 pairs, for a directly constructed "
         "tree when some add_core returned True, for a history when an add lies between two read-outs, for a call "
-        "sequence when a dictionary is passed again after an in-place change of a core set; distinct = distinct canonical case JSON")
+        "sequence when a dictionary is passed again after an in-place change of a core set, for lazy read-outs when a "
+        "generator is resumed after another one ran, for a controller sequence when it sent >= 2 flood fills; distinct = distinct canonical case JSON")
 
 CORE_SETS = [[0], [1], [17], [0, 1], [1, 2, 3], [0, 17], list(range(1, 17)), list(range(18)),
              [5, 6, 7, 8], [2], [16, 17]]
@@ -635,14 +651,416 @@ def verdict_calls(c):
     return mism, found
 
 
+# ---------------------------------------------------------------- lazily consumed, interleaved read-outs
+def gen_gens(rng):
+    """two or three trees (roots, some directly constructed sub-trees) and read-outs that stay generator objects:
+    ["add", t, x, y, p]   trees[t].add_core(x, y, p)
+    ["open", g, t]        generator g = trees[t].get_regions_and_coremasks()  (nothing is consumed yet)
+    ["next", g, k]        consume up to k pairs of generator g
+    ["drain", g]          consume generator g to the end
+    ["drop", g]           abandon generator g
+    Generators of one tree and of different trees are advanced alternately by random step counts; a tree only changes
+    while none of its generators is open (else that generator is not judged)."""
+    ntrees = rng.choice([2, 2, 3])
+    trees, pts = [], []
+    for t in range(ntrees):
+        if rng.random() < 0.2:
+            st = gen_subtree(rng)
+            sc = 4 ** (4 - st["level"])
+            bx, by = st["x"] // sc * sc, st["y"] // sc * sc            # on its grid
+            trees.append([bx, by, st["level"]])
+            pts.append([q for q in st["points"] if bx <= q[0] < bx + sc and by <= q[1] < by + sc and 0 <= q[2] < 18][:200])
+        else:
+            trees.append([0, 0, 0])
+            if rng.random() < 0.6:      # neighbouring chips with different core sets: several groups per node
+                tg = build_targets({"shapes": shape_neigh(rng) + (shape_sparse(rng) if rng.random() < 0.4 else []),
+                                    "order": rng.randrange(1 << 30)})
+                pts.append([[x, y, p] for (x, y), cs in tg.items() for p in cs][:250])
+            else:
+                pts.append(small_points(rng, 200)[0])
+    ops = []
+    rest = [list(q) for q in pts]
+    # first part of every tree
+    for t in range(ntrees):
+        cut = len(rest[t]) if rng.random() < 0.6 else rng.randrange(len(rest[t]) + 1)
+        ops += [["add", t] + q for q in rest[t][:cut]]
+        rest[t] = rest[t][cut:]
+    g, live = 0, {}          # generator -> tree
+    for _ in range(rng.choice([2, 3, 4, 6])):
+        for _ in range(rng.choice([2, 2, 3])):
+            t = rng.randrange(ntrees) if rng.random() < 0.7 else 0
+            ops.append(["open", g, t])
+            live[g] = t
+            g += 1
+        for _ in range(rng.choice([3, 6, 10, 20])):
+            if not live:
+                break
+            h = rng.choice(sorted(live))
+            r = rng.random()
+            if r < 0.75:
+                ops.append(["next", h, rng.choice([1, 1, 1, 2, 3, 5])])
+            elif r < 0.85:
+                ops.append(["drain", h])
+                del live[h]
+            elif r < 0.9:
+                ops.append(["drop", h])
+                del live[h]
+            else:                # another tree changes meanwhile
+                free = [t for t in range(ntrees) if t not in live.values() and rest[t]]
+                if free:
+                    t = rng.choice(free)
+                    n = rng.choice([1, 2, 5])
+                    ops += [["add", t] + q for q in rest[t][:n]]
+                    rest[t] = rest[t][n:]
+        for h in sorted(live):
+            ops.append(["drain", h] if rng.random() < 0.85 else ["drop", h])
+        live = {}
+        for t in range(ntrees):
+            n = rng.choice([0, 1, 3, len(rest[t])])
+            ops += [["add", t] + q for q in rest[t][:n]]
+            rest[t] = rest[t][n:]
+    return {"kind": "gens", "trees": trees, "ops": ops}
+
+
+def impl_gens(trees, ops):
+    """-> per tree the history (adds and, where a generator was opened, a read-out marker), per generator its record"""
+    from rig.machine_control import regions
+    objs = [regions.RegionCoreTree(bx, by, lv) for bx, by, lv in trees]
+    hist = [[] for _ in trees]          # per tree: [x, y, p] / ["g", g]
+    rets = [[] for _ in trees]          # per tree: results of the adds
+    gens = {}
+    try:
+        for op in ops:
+            if op[0] == "add":
+                t = op[1]
+                if not 0 <= t < len(objs):
+                    continue
+                for rec in gens.values():
+                    if rec["tree"] == t and rec["open"]:
+                        rec["tainted"] = True          # its tree changed while it was open: unspecified
+                rets[t].append(bool(objs[t].add_core(op[2], op[3], op[4])))
+                hist[t].append([op[2], op[3], op[4]])
+                continue
+            g = op[1]
+            if op[0] == "open":
+                if g in gens or not 0 <= op[2] < len(objs):
+                    continue
+                gens[g] = {"tree": op[2], "it": objs[op[2]].get_regions_and_coremasks(), "out": [], "open": True,
+                           "done": False, "tainted": False}
+                hist[op[2]].append(["g", g])
+                continue
+            rec = gens.get(g)
+            if rec is None or not rec["open"]:
+                continue
+            if op[0] == "drop":
+                rec["open"] = False
+                rec["it"].close() if hasattr(rec["it"], "close") else None
+                continue
+            n = op[2] if op[0] == "next" else None
+            while n is None or n > 0:
+                try:
+                    r, m = next(rec["it"])
+                except StopIteration:
+                    rec["open"], rec["done"] = False, True
+                    break
+                rec["out"].append([int(r), int(m)])
+                if n is not None:
+                    n -= 1
+    except ValueError:
+        return {"err": "ValueError"}
+    except Exception as e:  # noqa
+        return {"err": "Other " + type(e).__name__}
+    for rec in gens.values():
+        del rec["it"]
+    return {"ok": {"hist": hist, "rets": rets, "gens": {str(g): rec for g, rec in gens.items()},
+                   "trees": [dump_tree(t) for t in objs]}}
+
+
+def prepare_gens(c, reqs, idx):
+    c["impl"] = impl_gens(c["trees"], c["ops"])
+    c["_judged"] = []
+    if "ok" not in c["impl"]:
+        return
+    ok = c["impl"]["ok"]
+    for t, (tr, h) in enumerate(zip(c["trees"], ok["hist"])):
+        # the model of a generator: the list the traversal yields for the tree AS IT IS when the generator is created
+        reqs.append({"suite": "c12", "op": "history", "x": tr[0], "y": tr[1], "level": tr[2],
+                     "ops": [[] if q[0] == "g" else q for q in h]})
+        idx.append((c, ("model", t)))
+        sofar = set()
+        for q in h:
+            if q[0] != "g":
+                sofar.add(tuple(q))
+                continue
+            rec = ok["gens"][str(q[1])]
+            if tr[2] == 0 and rec["done"] and not rec["tainted"] and all(in_range(*a) for a in sofar):
+                tg = [list(a) for a in sorted(sofar)]
+                reqs.append({"suite": "c12", "op": "oracle", "targets": tg, "out": rec["out"], "queries": queries({}, tg)})
+                idx.append((c, ("oracle", q[1])))
+                c["_judged"].append((q[1], tg))
+
+
+def verdict_gens(c):
+    mism, found = None, []
+    if "ok" not in c["impl"]:
+        if all(tr == [0, 0, 0] for tr in c["trees"]) and all(in_range(*op[2:]) for op in c["ops"] if op[0] == "add"):
+            found.append(("exception-on-valid-targets", "a call raised %s although every added core is in range: trees %s "
+                          "calls %s" % (c["impl"]["err"], c["trees"], str(c["ops"])[:300])))
+        return "implementation raised %s" % c["impl"]["err"], found
+    ok = c["impl"]["ok"]
+    for t, h in enumerate(ok["hist"]):
+        m = c[("model", t)]
+        if "ok" not in m:
+            mism = mism or "tree %d: model raised %s, implementation did not" % (t, m)
+            continue
+        if m["ok"]["tree"] != ok["trees"][t]:
+            mism = mism or "tree %d: final tree differs: impl=%s model=%s" % (t, str(ok["trees"][t])[:200],
+                                                                              str(m["ok"]["tree"])[:200])
+        adds = iter(ok["rets"][t])
+        for q, res in zip(h, m["ok"]["results"]):
+            if q[0] != "g":
+                if next(adds) != res:
+                    mism = mism or "tree %d: add_core%r returned %r, model %r" % (t, tuple(q), not res, res)
+                continue
+            rec = ok["gens"][str(q[1])]
+            if rec["tainted"]:
+                continue
+            want = res if rec["done"] else res[:len(rec["out"])]
+            if rec["out"] != want:
+                mism = mism or ("generator %d of tree %d %r (%s): yielded %s, the traversal of the tree as it was when the "
+                                "generator was created gives %s" % (q[1], t, c["trees"][t],
+                                                                    "consumed to the end" if rec["done"] else "abandoned",
+                                                                    str(rec["out"])[:200], str(res)[:200]))
+    for g, tg in c["_judged"]:
+        o = c[("oracle", g)]
+        if not o["nodup"]:
+            raise RuntimeError("harness error: the oracle was given a target list with repetitions")
+        if not o["exact"] or o["bad"]:
+            rec = ok["gens"][str(g)]
+            found.append(("lazy-read-not-exact",
+                          "generator %d = get_regions_and_coremasks() of tree %d, consumed lazily to the end while other "
+                          "generators were in progress (its own tree unchanged meanwhile): the pairs %s do not select "
+                          "exactly the cores of its tree %s once each under the documented region word%s; trees %s, whole "
+                          "history: %s" % (g, rec["tree"], str(rec["out"])[:200], str(tg)[:200],
+                                           (" ((x, y, p, expected, selected by) = %r)" % o["bad"]) if o["bad"] else "",
+                                           c["trees"], str(c["ops"])[:400])))
+            break
+    return mism, found
+
+
+# ---------------------------------------------------------------- the region lists the controller sends (FFCS packets)
+FILL_SDRAM_SYS, FILL_VCPU_BASE = 0x60000000, 0xe5007000
+_FILLDIR = [None]
+
+
+def gen_targets_on(rng, chips):
+    cs = [c for c in chips if rng.random() < rng.choice([0.3, 0.7, 1.0])] or [rng.choice(chips)]
+    common_set = rand_cores(rng)[:rng.choice([1, 2, 4])]
+    mode = rng.random()
+    if mode < 0.15:     # every chip, one core set: complete 4 x 4 blocks merge into a level-2 word
+        cs = list(chips)
+    out = []
+    for x, y in cs:
+        cores = common_set if mode < 0.5 else rand_cores(rng)[:rng.choice([1, 2, 3])]
+        out.append([x, y, sorted(set(cores))])
+    rng.shuffle(out)
+    return out
+
+
+def vary_targets(rng, chips, t):
+    """the next request relative to an earlier one"""
+    r = rng.random()
+    if r < 0.35:        # the same chips, other cores
+        if rng.random() < 0.5:
+            sh = rng.randrange(1, 17)
+            return [[x, y, sorted({(p + sh) % 18 for p in cs})] for x, y, cs in t]
+        return [[x, y, sorted(set(rand_cores(rng)[:rng.choice([1, 2, 3])]))] for x, y, cs in t]
+    if r < 0.5:         # a part of it (what a retry sends)
+        out = []
+        for x, y, cs in t:
+            q = rng.random()
+            if q < 0.3:
+                continue
+            out.append([x, y, cs if q < 0.6 else sorted(rng.sample(cs, rng.randrange(1, len(cs) + 1)))])
+        return out or [t[0]]
+    if r < 0.65:        # more of it
+        out = [[x, y, sorted(set(cs) | set(rand_cores(rng)[:2]))] for x, y, cs in t]
+        have = {(x, y) for x, y, _ in t}
+        out += [[x, y, rand_cores(rng)[:2]] for x, y in chips if (x, y) not in have and rng.random() < 0.5]
+        return out
+    if r < 0.8:
+        return [list(e) for e in t]      # exactly the same again
+    return gen_targets_on(rng, chips)
+
+
+def gen_fills(rng):
+    """one MachineController on a recording machine; steps
+    ["ff", name, targets, app_id, wait]                  flood_fill_aplx(path(name), targets, ...)
+    ["ffmap", [[name, targets], ...], app_id, wait]      flood_fill_aplx({path: targets, ...}, ...)
+    ["load", [[name, targets], ...], app_id, n_tries, wait, use_count]    load_application({...}, ...)
+    `missed`[i] = chips that do not receive the i-th flood fill of the whole sequence (retries of load_application)."""
+    kind = rng.random()
+    if kind < 0.4:
+        ox, oy = rng.choice([(0, 0), (4, 8), (16, 16), (60, 60), (62, 14), (252, 252), (124, 0)])
+        w, h = rng.choice([(2, 2), (4, 4), (4, 4), (5, 3), (3, 6), (6, 6)])
+        chips = [(ox + i, oy + j) for i in range(w) for j in range(h) if ox + i < 256 and oy + j < 256]
+    elif kind < 0.7:
+        chips = sorted({(rng.choice([0, 1, 3, 4, 15, 16, 63, 64, 200]), rng.choice([0, 2, 3, 4, 16, 63, 64, 255]))
+                        for _ in range(rng.randrange(1, 9))})
+    else:
+        ox, oy = rng.randrange(64) * 4, rng.randrange(64) * 4
+        chips = [(ox + i, oy + j) for i in range(4) for j in range(4)]
+        chips += [(min(255, ox + 4), oy), (ox, min(255, oy + 5))][:rng.randrange(3)]
+        chips = sorted(set(chips))
+    chips = [list(c) for c in chips]
+    tch = [tuple(c) for c in chips]
+    images = [[rng.randrange(256) for _ in range(4 * rng.randrange(1, 9))] for _ in range(3)]
+    steps, last = [], {}
+    app_id = rng.choice([30, 31, 66])
+    for i in range(rng.choice([2, 2, 3, 4, 6])):
+        name = rng.choice([0, 0, 0, 1, 2]) if i else 0
+        t = vary_targets(rng, tch, last[name]) if name in last and rng.random() < 0.85 else gen_targets_on(rng, tch)
+        if name not in last and last and rng.random() < 0.4:
+            t = [list(e) for e in rng.choice(sorted(last.values()))]       # another binary, the same targets
+        last[name] = t
+        r = rng.random()
+        if r < 0.5:
+            steps.append(["ff", name, t, app_id, rng.random() < 0.6])
+        elif r < 0.65:
+            other = (name + 1) % 3
+            t2 = gen_targets_on(rng, tch)
+            used = {(x, y, p) for x, y, cs in t for p in cs}
+            t2 = [[x, y, [p for p in cs if (x, y, p) not in used]] for x, y, cs in t2]
+            t2 = [e for e in t2 if e[2]]
+            pairs = [[name, t]] + ([[other, t2]] if t2 else [])
+            if t2:
+                last[other] = t2
+            steps.append(["ffmap", pairs, app_id, rng.random() < 0.6])
+        else:
+            steps.append(["load", [[name, t]], app_id, rng.choice([1, 2, 3]), rng.random() < 0.5, rng.random() < 0.5])
+    missed = []
+    for i in range(rng.choice([0, 0, 2, 4, 8])):
+        missed.append([list(c) for c in tch if rng.random() < rng.choice([0.0, 0.2, 0.5])])
+    return {"kind": "fills", "chips": chips, "images": images, "missed": missed, "steps": steps}
+
+
+def impl_fills(c):
+    """-> {"calls": [{"name", "targets", "order"}...] one per (binary, targets) of every flood_fill_aplx invocation
+    (also those made by load_application), "fills": [[[region, core mask], ...], ...] the FFCS packets between
+    successive flood-fill start packets, "errors": [...]}"""
+    import tempfile
+    from harness import c09 as h9
+    from harness import simnet, simmachine
+    from rig.machine_control import machine_controller as mcm
+    k = h9.load_consts()
+    if _FILLDIR[0] is None:
+        _FILLDIR[0] = tempfile.mkdtemp(prefix="c12-")
+    paths = {}
+    for n, im in enumerate(c["images"]):
+        paths[n] = os.path.join(_FILLDIR[0], "app%d_%d.aplx" % (os.getpid(), n))
+        with open(paths[n], "wb") as f:
+            f.write(bytes(im))
+    names = {v: n for n, v in paths.items()}
+    machine = h9.LoadMachine(c["chips"], 256, FILL_SDRAM_SYS, FILL_VCPU_BASE, c["missed"], [], k)
+    net = simnet.Net(machine.handle, lambda i, d: None)
+    calls, errors, cur, inv = [], [], [0], [0]
+
+    def tdict(t):
+        d = {}
+        for x, y, cs in t:
+            d[(x, y)] = set()
+            for p in cs:
+                d[(x, y)].add(p)
+        return d
+
+    with simnet.installed(net):
+        mc = simmachine.make_controller(net, timeout=4.0)
+        real = mc.flood_fill_aplx
+
+        def recording(*args, **kw):
+            amap = {args[0]: args[1]} if len(args) == 2 else args[0]
+            inv[0] += 1
+            for path, targets in amap.items():
+                calls.append({"name": names.get(path), "step": cur[0], "inv": inv[0], "targets": [[x, y, sorted(cs)] for (x, y), cs in targets.items()],
+                              "order": [[x, y, p] for (x, y), cs in targets.items() for p in cs]})
+            return real(*args, **kw)
+        mc.flood_fill_aplx = recording
+        for i, st in enumerate(c["steps"]):
+            cur[0] = i
+            try:
+                if st[0] == "ff":
+                    mc.flood_fill_aplx(paths[st[1]], tdict(st[2]), app_id=st[3], wait=st[4])
+                elif st[0] == "ffmap":
+                    mc.flood_fill_aplx({paths[n]: tdict(t) for n, t in st[1]}, app_id=st[2], wait=st[3])
+                elif st[0] == "load":
+                    mc.load_application({paths[n]: tdict(t) for n, t in st[1]}, app_id=st[2], n_tries=st[3],
+                                        wait=st[4], app_start_delay=0.0, use_count=st[5])
+            except mcm.SpiNNakerLoadingError:
+                pass                    # some chips missed every attempt: the documented outcome
+            except Exception as e:  # noqa
+                errors.append([i, "%s %s" % (type(e).__name__, str(e)[:100])])
+                break
+    fills = []
+    for raw, _ in machine.log:
+        if raw["cmd"] != 20:
+            continue
+        op = raw["arg1"] >> 24
+        if op == k["nnFfs"]:
+            fills.append([])
+        elif op == k["nnFfcs"] and fills:
+            # documented layout of the core-select packet: arg1 = command << 24 | core mask, arg2 = region
+            fills[-1].append([raw["arg2"], raw["arg1"] & 0xffffff])
+    return {"calls": calls, "fills": fills, "errors": errors}
+
+
+def prepare_fills(c, reqs, idx):
+    c["impl"] = impl_fills(c)
+    for i, (call, pairs) in enumerate(zip(c["impl"]["calls"], c["impl"]["fills"])):
+        reqs.append({"suite": "c12", "op": "compress", "targets": call["order"]})
+        idx.append((c, ("model", i)))
+        tg = sorted(call["order"])
+        reqs.append({"suite": "c12", "op": "oracle", "targets": tg, "out": pairs, "queries": queries({}, tg)})
+        idx.append((c, ("oracle", i)))
+
+
+def verdict_fills(c):
+    mism, found = None, []
+    r = c["impl"]
+    if r["errors"]:
+        mism = "step %d raised %s" % tuple(r["errors"][0])
+    if len(r["calls"]) != len(r["fills"]) and not r["errors"]:
+        mism = mism or "%d flood fills requested, %d flood-fill start packets seen" % (len(r["calls"]), len(r["fills"]))
+    for i, (call, pairs) in enumerate(zip(r["calls"], r["fills"])):
+        where = ("flood fill #%d of a sequence on one MachineController (binary %s): the FFCS packets carry (region, core "
+                 "mask) = %s for the targets of that call %s" % (i + 1, call["name"], str(pairs)[:200],
+                                                                 str(call["targets"])[:200]))
+        m = c[("model", i)]
+        if m != {"ok": pairs}:
+            mism = mism or "%s; model: %s" % (where, str(m)[:200])
+        o = c[("oracle", i)]
+        if not o["nodup"]:
+            raise RuntimeError("harness error: the oracle was given a target list with repetitions")
+        tail = "; whole sequence: chips %s steps %s missed %s" % (str(c["chips"])[:120], str(c["steps"])[:400],
+                                                                  str(c["missed"])[:100])
+        if not o["exact"] or o["bad"]:
+            found.append(("ffcs-not-exact", "%s: they do not select exactly the requested cores once each under the "
+                          "documented region word%s%s" % (where, (" ((x, y, p, expected, selected by) = %r)" % o["bad"])
+                                                          if o["bad"] else "", tail)))
+        if not o["sorted"]:
+            found.append(("ffcs-not-increasing", "%s: not strictly increasing%s" % (where, tail)))
+    return mism, found
+
+
 SEQ = {"history": ("ops", prepare_history, verdict_history, "c12.history"),
-       "calls": ("steps", prepare_calls, verdict_calls, "c12.calls")}
+       "calls": ("steps", prepare_calls, verdict_calls, "c12.calls"),
+       "gens": ("ops", prepare_gens, verdict_gens, "c12.gens"),
+       "fills": ("steps", prepare_fills, verdict_fills, "c12.fills")}
 
 
 def shrink_seq(ctx, case, key):
     """delta debugging on the list of calls of a history / call sequence, keeping the same finding key"""
     field, _, verdict, _ = SEQ[case["kind"]]
-    base = {k: v for k, v in case.items() if k in ("kind", "x", "y", "level")}
+    base = {k: v for k, v in case.items() if k in ("kind", "x", "y", "level", "trees", "chips", "images", "missed")}
 
     def keys_of(seqs):
         cands = [dict(base, **{field: q}) for q in seqs]
@@ -708,6 +1126,50 @@ def finish_seq(ctx, c, desc):
             if any(l < 3 for l in lv):
                 ctx.tag("history_read_sees_merged_block")
         ctx.case(desc, between and "ok" in c["impl"])
+    elif c["kind"] == "gens":
+        inter = False
+        if "ok" in c["impl"]:
+            gens = c["impl"]["ok"]["gens"]
+            ctx.tag("gens_%d_trees" % len(c["trees"]))
+            for rec in gens.values():
+                ctx.tag("gens_generator_%s" % ("tainted" if rec["tainted"] else "drained" if rec["done"] else "abandoned"))
+            # some generator was advanced, another one ran, and the first one was advanced again
+            seen, lastg = {}, None
+            for op in c["ops"]:
+                if op[0] in ("next", "drain"):
+                    if op[1] in seen and lastg is not None and lastg != op[1] and seen[op[1]] < seen.get(lastg, -1):
+                        inter = True
+                    seen[op[1]] = len(seen) + (max(seen.values()) if seen else 0)
+                    lastg = op[1]
+            if inter:
+                ctx.tag("gens_interleaved")
+            if any(tr != [0, 0, 0] for tr in c["trees"]):
+                ctx.tag("gens_with_subtree")
+            if len({rec["tree"] for rec in gens.values()}) < len(gens):
+                ctx.tag("gens_two_generators_of_one_tree")
+            ctx.tag("gens_judged_%s" % ("0" if not c["_judged"] else "1-2" if len(c["_judged"]) <= 2 else "3+"))
+        else:
+            ctx.tag("gens_err")
+        ctx.case(desc, inter)
+    elif c["kind"] == "fills":
+        r = c["impl"]
+        ctx.tag("fills_%s" % ("0-1" if len(r["fills"]) <= 1 else "2-3" if len(r["fills"]) <= 3 else "4+"))
+        for st in c["steps"]:
+            ctx.tag("fills_step_" + st[0])
+        seen, again = {}, False
+        for call in r["calls"]:
+            key = (call["name"], tuple(sorted((x, y) for x, y, _ in call["targets"])))
+            if key in seen and seen[key] != call["targets"]:
+                again = True
+            seen.setdefault(key, call["targets"])
+        if again:
+            ctx.tag("fills_same_binary_same_chips_other_cores")
+        if any(len({call["inv"] for call in r["calls"] if call["step"] == i}) > 1 for i in range(len(c["steps"]))):
+            ctx.tag("fills_load_application_retried")
+        if any(((rg >> 16) & 3) < 3 for f in r["fills"] for rg, _ in f):
+            ctx.tag("fills_merged_block_word")
+        ctx.traces += max(0, len(r["fills"]) - 1)
+        ctx.case(desc, len(r["fills"]) >= 2)
     else:
         calls = c["_calls"]
         names = [c["steps"][r["step"]][1] for r in calls]
@@ -793,7 +1255,7 @@ def finish(ctx, cases, idx, replies):
         c[what] = r
     for c in cases:
         desc = {k: v for k, v in c.items() if k in ("kind", "shapes", "order", "points", "x", "y", "level", "ops",
-                                                    "steps")}
+                                                    "steps", "trees", "chips", "images", "missed")}
         ctx.traces += 1
         if c["kind"] in SEQ:
             finish_seq(ctx, c, desc)
@@ -895,11 +1357,15 @@ def run(ctx):
         "the model is stateless between calls (a read-out is a pure traversal, compress a pure function of the targets "
         "at the call); any state the implementation carries between calls shows up as a difference on the histories "
         "and call sequences",
+        "what a generator yields after its own tree changed while it was open is unspecified and not judged",
+        "the simulated machine behind the controller (harness/c09.LoadMachine) is used only to record the packets and to "
+        "make load_application retry; FFCS packets are attributed to flood_fill_aplx invocations in order (one start "
+        "packet per binary of an invocation)",
         "the enumerating oracle (exactB, strictB) is proved to decide `Exact` / `StrictlyIncreasing` for target lists "
         "without repetition (exactB_iff, strictB_iff); that hypothesis is decided by the driver on every call "
         "(nodupB, nodupB_iff) and a repetition would be reported as a harness error; the literal `countSel` is still "
         "evaluated on sampled targets and non-targets as a redundant cross-check"]
-    n = ctx.scale(1500, 30000)
+    n = ctx.scale(1500, 24000)
     nreg = ctx.scale(3000, 0)
     if ctx.extended:
         n *= 4
@@ -921,6 +1387,8 @@ def run(ctx):
     cases += [gen_subtree(rng) for _ in range(ctx.scale(300, 3000) * (4 if ctx.extended else 1))]
     cases += [gen_history(rng) for _ in range(ctx.scale(250, 3000) * (4 if ctx.extended else 1))]
     cases += [gen_calls(rng) for _ in range(ctx.scale(250, 3000) * (4 if ctx.extended else 1))]
+    cases += [gen_gens(rng) for _ in range(ctx.scale(250, 3000) * (4 if ctx.extended else 1))]
+    cases += [gen_fills(rng) for _ in range(ctx.scale(200, 2500) * (4 if ctx.extended else 1))]
     if ctx.quick:
         cases += region_cases(ctx, nreg)
     else:
@@ -952,7 +1420,8 @@ def run(ctx):
 def replay(ctx, payload):
     ctx.extra["rule"] = RULE
     ctx.extra["_shrunk"] = {"not-exact", "not-increasing", "history-read-not-exact", "call-sequence-not-exact",
-                            "call-sequence-not-increasing", "targets-changed-by-call",
+                            "call-sequence-not-increasing", "targets-changed-by-call", "lazy-read-not-exact",
+                            "ffcs-not-exact", "ffcs-not-increasing",
                             "exception-on-valid-targets"}   # replay the case (the whole history) as recorded
     eval_cases(ctx, [payload["case"]])
     ctx.extra.pop("_shrunk", None)
